@@ -243,3 +243,9 @@ def run(ctx):
                     o.violated(cj, apps[0], f"rows have `{txt(bw['w'])}` columns, not one per size up to the largest clique")
                 else:
                     o.undecided("row construction not recognised", cj, apps[0])
+            elif not apps:
+                jd_def = sc.def_stmt(jds_name)
+                if jd_def is not None and isinstance(jd_def.value, ast.List) and not jd_def.value.elts and \
+                        not any(isinstance(n, ast.Call) and isinstance(n.func, ast.Attribute) and n.func.attr in ("extend", "insert") and txt(n.func.value) == jds_name for n in astx.walk_fn(cj.node)) and \
+                        not any(isinstance(n, ast.AugAssign) and txt(n.target) == jds_name for n in astx.walk_fn(cj.node)):
+                    o.violated(cj, jd_def, f"`{jds_name}` starts empty and no row is ever added to it: there is nothing to count into (IndexError on the first clique / an empty distribution)")
